@@ -42,6 +42,84 @@ CHECKS = {
              "release-and-wait, broadcast wakes all waiters), OS fairness (eventual scheduling of an enabled thread), sequential consistency at "
              "block granularity (C11 races / x86-TSO not modelled), one writer thread, readers registered before the concurrent phase. Axioms: none.",
         technique="Coq invariant over an interleaving system (all schedules) + bounded-progress lemmas; lock-step replay of the real code under a deterministic scheduler"),
+    "C04": dict(
+        family="pipe", design="6.4",
+        text="Machine-checked proof over an event-labelled transition system of the runtime (Pipe.PipeModel: one transition per block between "
+             "scheduling points of acquire.c start/stop/abort/map_read/unmap_read, source.c, sink.c, filter.c over the abstract multi-reader queue "
+             "and the HAL device states; two streams; camera and storage faults; any write delay = any non-empty frame-boundary prefix is a legal "
+             "append), for every accepted trace of any length (invariant YInv, 4 groups, preserved by every event; induction over traces): in every "
+             "reachable state what storage received since its start is a prefix, in order, of the frames the camera delivered in this run and the "
+             "n-th delivered frame carries frame id n, hardware id n and this run's payload tag (C04_prefix_always); when acquire_stop returns for "
+             "an acquisition that was started, not aborted and not hit by a fault, storage holds exactly the delivered frames and there are "
+             "max_frame_count of them (C04_complete_after_stop); an event of one stream never changes the other stream's queue, storage or camera "
+             "log (C04_streams_independent, C04_streams_data_independent); monitor activity changes nothing but the monitor reader "
+             "(C04_monitor_independent). Tied to the code on every run: the whole runtime is compiled unmodified from /repo's working tree against "
+             "the deterministic scheduler and a mock driver, every channel operation, device call, callback, thread event and API call is logged "
+             "with the acting thread, translated to model events, and the extracted model must ACCEPT every logged trace (implementation traces "
+             "are then among the traces the theorems quantify over); an independent oracle over the log (storage appends vs camera frames, pixel "
+             "hashes, ids) finds concrete failing schedules.",
+        note=TB + "Modelled, not verified: OS fairness (an enabled thread is eventually scheduled); pthread mutex/condvar/event semantics "
+             "(harness/vplatform replaces platform.c); sequential consistency at the granularity of the blocks between scheduling points (the C11 "
+             "races on the unsynchronised stop/running flags are not modelled); the shipped devices are replaced by a mock driver (they are C14-C18); "
+             "the queue sink.in is the abstract multi-reader log that the ring family (C01-C03) proves channel.c to implement; model scope G1 "
+             "(frame averaging off - the averaging data path is C10's -, stream i uses device pair i, configure/start between acquisitions): logs "
+             "outside G1 are checked by the independent oracle only. Axioms: none (all theorems closed under the global context).",
+        technique="Coq invariant proof over an event-labelled transition system of the runtime (all schedules, by induction over traces); trace-acceptance check of the real runtime under a deterministic scheduler + independent storage/camera oracle"),
+    "C06": dict(
+        family="pipe", design="6.6",
+        text="Machine-checked proof over the same transition system as C04: for a monitor reader that was registered and drained when the "
+             "acquisition's storage was started, the frames the client has consumed are a run of consecutive frames of this acquisition's camera "
+             "run - consecutive ids, this run's payload, no gap, repeat, reordering or stale frame (C06_consecutive_fresh); monitor activity never "
+             "changes what reaches storage (C06_no_effect_on_storage); when stop or abort returns a registered monitor reader is drained and holds "
+             "nothing (C06_flushed_at_return), so it is fresh at the next start; acquire_map_read has no failing transition (C06_map_never_fails). "
+             "Tied to the code by the trace-acceptance check of C04 with client scripts (poll patterns, partial consumption, long holds, monitor "
+             "thread concurrent with stop/abort, up to 3 acquisitions); the oracle compares ids and pixel hashes (acquisition-tagged) of every "
+             "frame the client consumed. Known finding (recorded, not repaired): a reader that registers for the first time in a later "
+             "acquisition joins at offset 0 of the current lap and sees earlier acquisitions' frames (the model admits it: mon_fresh = false).",
+        note=TB + "Modelled, not verified: OS fairness (an enabled thread is eventually scheduled); pthread mutex/condvar/event semantics "
+             "(harness/vplatform replaces platform.c); sequential consistency at the granularity of the blocks between scheduling points (the C11 "
+             "races on the unsynchronised stop/running flags are not modelled); the shipped devices are replaced by a mock driver (they are C14-C18); "
+             "the queue sink.in is the abstract multi-reader log that the ring family (C01-C03) proves channel.c to implement; model scope G1 "
+             "(frame averaging off - the averaging data path is C10's -, stream i uses device pair i, configure/start between acquisitions): logs "
+             "outside G1 are checked by the independent oracle only. Axioms: none (all theorems closed under the global context).",
+        technique="Coq invariant proof (monitor cursor/consumption log as a segment of the delivered frames) over all traces; trace-acceptance check with monitoring clients + pixel-hash oracle"),
+    "C07": dict(
+        family="pipe", design="6.7",
+        text="Machine-checked proof over the same transition system as C04, for every accepted trace (abort or stop injected at any point of any "
+             "schedule: trigger wait, full queue, client holding a region, already finished): when acquire_abort or acquire_stop returns the runtime "
+             "is Armed, no call is in progress, all three workers of every configured stream have exited with their running flags clear and "
+             "neither camera nor storage is in the running state (C07_armed_after_return); storage holds a gap-free prefix of the delivered frames "
+             "at every moment (C07_prefix_at_abort); a later start/stop is complete and contains only its own frames whatever was aborted before "
+             "(C07_clean_restart). 'Returns after finitely many steps' is covered by the deadlock/step-limit detector of the deterministic "
+             "scheduler on every run (no enabled thread = reported hang) and, for the wake-up protocol of the queue, by C03's theorems; the "
+             "pipeline-level bounded-progress theorem is stated in DESIGN.md as not yet proved. Tied to the code by the trace-acceptance check of "
+             "C04 with abort/stop at random scheduling points, triggers, unbounded acquisitions, averaging on/off, followed by further acquisitions.",
+        note=TB + "Modelled, not verified: OS fairness (an enabled thread is eventually scheduled); pthread mutex/condvar/event semantics "
+             "(harness/vplatform replaces platform.c); sequential consistency at the granularity of the blocks between scheduling points (the C11 "
+             "races on the unsynchronised stop/running flags are not modelled); the shipped devices are replaced by a mock driver (they are C14-C18); "
+             "the queue sink.in is the abstract multi-reader log that the ring family (C01-C03) proves channel.c to implement; model scope G1 "
+             "(frame averaging off - the averaging data path is C10's -, stream i uses device pair i, configure/start between acquisitions): logs "
+             "outside G1 are checked by the independent oracle only. Axioms: none (all theorems closed under the global context).",
+        technique="Coq invariant proof of the post-state of stop/abort over all traces; trace-acceptance check with aborts at arbitrary scheduling points + deadlock detector"),
+    "C09": dict(
+        family="pipe", design="6.9",
+        text="Machine-checked proof over the same transition system as C04 with device faults as events (a frame call that fails, an append that "
+             "returns a non-running state, a failing device start), for every accepted trace: an append is only issued to a running storage that "
+             "has not failed since its start and a failing append leaves the running state at once, so nothing is appended after a failure "
+             "(C09_nothing_appended_after_failure, C09_failed_append_leaves_running); frames are requested only from a running camera "
+             "(C09_frames_only_while_running); when stop or abort returns, with or without a fault, workers have exited, camera and storage are "
+             "stopped and the state is Armed (C09_wound_down_at_return); Running is reported only while a worker is alive "
+             "(C09_running_report_means_alive); a later fault-free acquisition is complete and correct (C09_next_run_correct). Tied to the code "
+             "by the trace-acceptance check of C04 with the fault index swept over frame/append/start calls, ring capacities and schedules, and a "
+             "following acquisition; the oracle checks call order after the failure, device stops, return of stop/abort (deadlock detector) and "
+             "the next run's storage log.",
+        note=TB + "Modelled, not verified: OS fairness (an enabled thread is eventually scheduled); pthread mutex/condvar/event semantics "
+             "(harness/vplatform replaces platform.c); sequential consistency at the granularity of the blocks between scheduling points (the C11 "
+             "races on the unsynchronised stop/running flags are not modelled); the shipped devices are replaced by a mock driver (they are C14-C18); "
+             "the queue sink.in is the abstract multi-reader log that the ring family (C01-C03) proves channel.c to implement; model scope G1 "
+             "(frame averaging off - the averaging data path is C10's -, stream i uses device pair i, configure/start between acquisitions): logs "
+             "outside G1 are checked by the independent oracle only. Axioms: none (all theorems closed under the global context).",
+        technique="Coq invariant proof over a transition system with fault events (all schedules, all fault positions); trace-acceptance check with scripted device faults + oracle"),
     "C11": dict(
         family="hal", design="6.11",
         text="Machine-checked proof (Coq, induction over every finite HAL call sequence and every driver response sequence incl. unknown "
